@@ -107,6 +107,20 @@ CHECKS = {
              "breadth-first sequence by identity), find/find_related over keys x types x all 32 flag combinations "
              "(trees <=4/5), plus four large deterministic trees; compared with ref/paths.py.",
         design="DESIGN.md C14"),
+    "C19": dict(
+        engine="history",
+        category="model_checking",
+        technique="exhaustive enumeration of validator-use event histories on the real classes; registry invariant, "
+                  "purity by snapshot, differential against a twin document, cross-process comparison",
+        text="Every sequence of <=3 (quick: depth 2 over 33 events, depth 3 over 17) / <=4 (thorough) events - default "
+             "validations of Document/Section/Property, report(), re-run, custom reset=True instances with marker rules "
+             "in both constructor forms, object creation attached/detached/with cardinalities, cardinality setters, "
+             "saves and loads in XML/JSON/YAML - over six documents (valid, warnings, cardinalities, deep, errors, "
+             "empty); after the last event: registry identical to import time, validated objects unchanged, default "
+             "validation equals that of a twin that only saw the editing events, repeats identically, custom "
+             "instances report exactly their own rules (also when re-run). The saved family is validated in 4 (12) "
+             "child processes with different PYTHONHASHSEED and the issue multisets compared.",
+        design="DESIGN.md C19, 10.1"),
 }
 
 NOT_YET = {}
